@@ -30,7 +30,7 @@ import (
 	"verif/harness/internal/rng"
 )
 
-const modName = "example.com/m"
+const baseModName = "example.com/m"
 
 type pkgSpec struct {
 	path    string   // relative dir
@@ -89,6 +89,11 @@ func pkgIdent(im string) string {
 
 func pkgNameOf(im string) string {
 	base := im[strings.LastIndex(im, "/")+1:]
+	if len(base) == 2 && base[0] == 'v' && base[1] >= '2' && base[1] <= '9' && strings.Contains(im, "/") {
+		// a major-version directory: the package is named after the directory above it
+		rest := im[:strings.LastIndex(im, "/")]
+		base = rest[strings.LastIndex(rest, "/")+1:]
+	}
 	return strings.NewReplacer("-", "_", ".", "_").Replace(base)
 }
 
@@ -118,6 +123,11 @@ func main() {
 	libFfis := append(append([]string{}, ffis...), "github.com/goose-lang/primitive/disk", "github.com/goose-lang/primitive/async_disk")
 	for c := 0; c < *n; c++ {
 		r := master.Fork()
+		// the module path: usually with a dot in its first element, sometimes without (go mod init demo)
+		modName := baseModName
+		if r.Intn(4) == 0 {
+			modName = "hdrmod"
+		}
 		root, err := os.MkdirTemp("", "verif-hdr-")
 		if err != nil {
 			panic(err)
@@ -131,7 +141,7 @@ func main() {
 		sum, _ := os.ReadFile(filepath.Join(*repo, "go.sum"))
 		os.WriteFile(filepath.Join(root, "go.sum"), sum, 0o644)
 		// helper packages: plain libraries, some of which import an FFI themselves
-		libs := []string{"lib1", "sub/my-pkg", "v1.2/x", "trusted_foo", "deep/a/b", "trusted_support/helpers", "store/wal", "store-utils/codec", "deep/trusted_bar"}
+		libs := []string{"lib1", "sub/my-pkg", "v1.2/x", "trusted_foo", "deep/a/b", "trusted_support/helpers", "store/wal", "store-utils/codec", "deep/trusted_bar", "api/v2"}
 		libImports := map[string][]string{}
 		for i, l := range libs {
 			var imps []string
@@ -214,12 +224,15 @@ func main() {
 				panic(err)
 			}
 			// the standard library is irrelevant for FFIs but part of the graph; keep only non-std nodes and edges
-			if !strings.Contains(p.ImportPath, ".") {
+			inGraph := func(path string) bool {
+				return strings.Contains(path, ".") || path == modName || strings.HasPrefix(path, modName+"/")
+			}
+			if !inGraph(p.ImportPath) {
 				continue
 			}
 			var imps []string
 			for _, im := range p.Imports {
-				if strings.Contains(im, ".") {
+				if inGraph(im) {
 					imps = append(imps, im)
 				}
 			}
@@ -286,6 +299,30 @@ func main() {
 				footer = "\nEnd code.\n"
 			}
 			fmt.Fprintf(w, "T %s\n", hx(footer))
+		}
+		// every Require of a package of this module names the file that translating the module writes
+		if code == 0 {
+			out2 := filepath.Join(root, "out2")
+			g2 := exec.Command(*goose, "-out", out2, "-dir", root, "-ignore-errors", "./...")
+			g2.Env = goEnv()
+			g2.Run()
+			for _, p := range produced {
+				data, _ := os.ReadFile(filepath.Join(outDir, p))
+				for _, line := range strings.Split(string(data), "\n") {
+					if !strings.HasPrefix(line, "From Goose Require ") {
+						continue
+					}
+					for _, x := range strings.Fields(strings.TrimSuffix(strings.TrimPrefix(line, "From Goose Require "), ".")) {
+						if !strings.HasPrefix(x, strings.NewReplacer(".", "_", "/", ".").Replace(modName)+".") {
+							continue // another module (FFI stand-ins are not translated here)
+						}
+						f := filepath.Join(out2, strings.ReplaceAll(x, ".", "/")+".v")
+						if _, err := os.Stat(f); err != nil {
+							fmt.Fprintf(w, "M %s\n", hx("the header requires "+x+" but translating the module writes no file "+strings.ReplaceAll(x, ".", "/")+".v"))
+						}
+					}
+				}
+			}
 		}
 		fmt.Fprintln(w, "E")
 		os.RemoveAll(root)
